@@ -943,7 +943,9 @@ T(t_mulacc)(unsigned k, int pat)
 		T(op_val)(&oe, nd, 0, 0, e, ka + kb);
 		SNAP(od); SNAP(oa); SNAP(ob);
 		F(mulacc)(od.p, oa.p, same ? oa.p : ob.p);
-		T(eqx)("mulacc", od.p, oe.p, nd + 1, 1);
+		/* when both operands carry the documented encoding of their lengths ((k / WB) << SH) + (k % WB), so does the result
+		   (the other spelling of a full top word, which decode() uses, would send a later reduce() the wrong way) */
+		T(eqx)("mulacc", od.p, oe.p, nd + 1, T(g_alt) ? 1 : 0);
 		GUARD("mulacc", od); CONST("mulacc", oa); CONST("mulacc", ob);
 		T(op_free)(&od); T(op_free)(&oa); T(op_free)(&ob); T(op_free)(&oe);
 	}
